@@ -30,7 +30,8 @@ Decided (all on normal forms, nothing on source text or positions):
   C07.suffix-table adjust_by_suffix of every culture's time parser configuration (the worded am / pm markers), interpreted with
                    sa/ointerp.py on AdjustParams(hour) and a stub match of the suffix pattern, per captured group (am / pm / neither /
                    no match) x hour x every combination of the day-part patterns it consults on the captured words: am words 12 -> 0,
-                   1..11 unchanged and marked; pm words 1..11 -> +12, 12 -> 12; day-part words keep the hour of the half day.
+                   1..11 unchanged; pm words 1..11 -> +12, 12 -> 12; day-part words keep the hour of the half day; an hour that
+                   stays in 1..12 has has_am or has_pm set (otherwise match_to_time adds the two-readings comment).
   C07.compose      "<date> at <time>": in every date-time / date-time-range parser function that parses a time
                    sub-entity, the TIMEX it assigns is derived (dataflow) from that sub-result's own timex_str - and
                    from the date sub-result's timex_str when a date is parsed too - and format_short_time /
@@ -2084,8 +2085,7 @@ def suffix_table(idx, mod, cls, fn, attr_names):
                         continue
                     if 1 <= got <= 12 and not marked:
                         # the hour stays in 1..12 and neither has_am nor has_pm is set: match_to_time will mark it am/pm-ambiguous
-                        (problems if scenario == 'am' and not on else notes).append(
-                            '%s: hour %d -> %d with neither has_am nor has_pm set (two readings follow)' % (what, h, got))
+                        problems.append('%s: hour %d -> %d with neither has_am nor has_pm set (two readings follow)' % (what, h, got))
     return sorted(set(problems), key=lambda x: (x.split(':')[0], len(x), x)), sorted(set(notes)), n
 
 
@@ -2124,7 +2124,7 @@ def _init_attr_names(idx, cls):
 def rule_suffix_table(chk, idx):
     rid = 'C07.suffix-table'
     chk.rule(rid, 'adjust_by_suffix of every culture, tabulated over hour x captured group: worded am ("in the morning") 12 -> 0 and '
-                  '1..11 unchanged and marked; worded pm 1..11 -> +12 and 12 -> 12; day-part words (lunch / night) keep the hour of the '
+                  '1..11 unchanged; worded pm 1..11 -> +12 and 12 -> 12; an hour left in 1..12 is marked has_am / has_pm; day-part words (lunch / night) keep the hour of the '
                   'half day; no am/pm words: unchanged', floor=5, control=True)
     base = idx.cls(PKG + '.base_time.TimeParserConfiguration')
     if 'adjust_by_suffix' not in base.methods:
@@ -2152,8 +2152,6 @@ def rule_suffix_table(chk, idx):
         chk.judge(not problems, rid, c.mod.path, '%s.adjust_by_suffix' % c.name,
                   '%d probes (captured group x hour x day-part patterns); wrong: %s' % (n, '; '.join(problems[:3]) if problems else 'none'),
                   'the hour under a worded am/pm suffix is wrong: %s' % '; '.join(problems[:4]), fn.lineno)
-        for t in notes[:2]:
-            chk.observe('%s: %s.adjust_by_suffix: %s' % (rid, c.name, t))
 
 
 # ---------------------------------------------------------------------------------------------------
